@@ -30,12 +30,26 @@ def ref_encode_native(fmt, t, v, fam, ns):
         return None if v is None else ref_encode_native(fmt, t.args[0], v, fam, ns)
     if k == "data":
         out = {}
-        for f in ref.all_fields(fam.get(t.name), fam):
+        spec = fam.get(t.name)
+        fields = ref.all_fields(spec, fam)
+        if spec.config.get("sort_keys"):
+            fields = sorted(fields, key=lambda f: f.name)
+        by_alias = spec.config.get("serialize_by_alias")
+        for f in fields:
             x = getattr(v, f.name)
             if x is None and omit_none:
                 continue
-            out[f.name] = ref_encode_native(fmt, f.ty, x, fam, ns)
+            out[f.alias if (by_alias and f.alias is not None) else f.name] = ref_encode_native(fmt, f.ty, x, fam, ns)
         return out
+    if k in ("counter",):
+        return {ref_encode_native(fmt, t.args[0], a, fam, ns): b for a, b in v.items()}
+    if k == "defaultdict":
+        return {ref_encode_native(fmt, t.args[0], a, fam, ns): ref_encode_native(fmt, t.args[1], b, fam, ns) for a, b in v.items()}
+    if k == "chainmap":
+        return [{ref_encode_native(fmt, t.args[0], a, fam, ns): ref_encode_native(fmt, t.args[1], b, fam, ns) for a, b in m.items()} for m in v.maps]
+    if k == "tupleu":
+        tys = ref.tupleu_types(t, len(v))
+        return [ref_encode_native(fmt, a, x, fam, ns) for a, x in zip(tys, v)]
     if k == "nt":
         return [ref_encode_native(fmt, f.ty, x, fam, ns) for f, x in zip(fam.get(t.name).fields, v)]
     if k == "td":
@@ -63,7 +77,7 @@ def run(ctx: vlib.Ctx):
     hits = tyoracle.report_corr(ctx, "TyModel.pk/ref_enc vs BasicEncoder.encode", cases, bad, log, want="enc")
 
     # direct oracle: independent reference interpreter + basic-ness + json.dumps
-    n = ctx.budget(250, 2500) if not hits else ctx.budget(1500, 6000)
+    n = ctx.budget(800, 5000) if not hits else ctx.budget(2500, 10000)
     for fam, ns, t, ty, sg in tyoracle.schema_stream(ctx.rng, n, unions=True, literals=True, any_=True):
         try:
             enc = BasicEncoder(ty)
